@@ -10,7 +10,7 @@ from .c14 import _synth
 
 ID = "C16"
 RULE = (
-    "every base pointer of depth<=3 over 9 tokens (names, indices 0/1/2/10/12, '~', 'a/b', non-ASCII) x every relative "
+    "every base pointer of depth<=3 over 10 tokens (built by parsing, by from_parts, or as the result of a previous application) (names, indices 0/1/2/10/12, '~', 'a/b', non-ASCII) x every relative "
     "pointer text: steps 0..depth+1, offset in {none,+-1,+-2,+-10,+-12}, suffix in {'', '#', five pointers with escapes}, "
     "plus the refused spellings (leading zeros, +0/-0, sign without digits). Offsets are generated only where the token "
     "they adjust is a canonical array index. state = distinct (base, relative text); non-trivial = reference defines a result"
@@ -21,10 +21,10 @@ ASSUMPTIONS = [
     "offsets onto non-index tokens and offsets at the root are not generated (the draft/statement is silent)",
 ]
 
-TOKENS = ["a", "0", "1", "2", "10", "12", "~", "a/b", "é"]
+TOKENS = ["a", "0", "1", "2", "10", "12", "~", "a/b", "é", "a\nb"]
 STEPS = ["0", "1", "2", "3", "4"]
 OFFSETS = ["", "+1", "-1", "+2", "-2", "+10", "-10", "+12", "-12"]
-SUFFIXES = ["", "#", "/a", "/0", "/~0", "/a~1b", "/é"]
+SUFFIXES = ["", "#", "/a", "/0", "/~0", "/a~1b", "/é", "/a\nb/c"]
 REFUSED = ["00", "01", "0+0", "0-0", "1+0#", "0+01", "0-00/a", "+1", "-1", "", "#", "/a", "0+", "0-#", "a", "0+a"]
 
 
@@ -100,7 +100,15 @@ def _check(base, text, acc, record=True):
     bad = None
     obs = None
     try:
-        bp = JSONPointer(bp_text)
+        # the base pointer by one of three construction routes (chosen by the case, all covered over the space):
+        # parsed text, from_parts (tokens held as strings), or the result of a previous relative application
+        route = (len(base) + len(text)) % 3
+        if route == 0:
+            bp = JSONPointer(bp_text)
+        elif route == 1:
+            bp = JSONPointer.from_parts(list(base))
+        else:
+            bp = JSONPointer(bp_text).to("0")
         try:
             rel = RelativeJSONPointer(text)
         except RelativeJSONPointerError:
